@@ -646,7 +646,10 @@ def cases(ctx):
     infos.append(("r_pitfall_args", dict(v=2, d=2, ny=2, nz=2, k=2)))  # D41 (fixed): d == v is refused with ValueError
 
     # ---- Pythagorean triples
-    for N in list(range(-1, 27)) + ([30, 41, 60] if not thorough else list(range(27, 80)) + [100, 150, 250, 400]):
+    # sizes where an index/bound computation matters: hypotenuses of the near-isosceles triples (x, x+1, z)
+    # (29, 169, 985: x/z is closest to 1/sqrt 2 there) and their neighbours, plus random larger N
+    big = [29, 30, 41, 60, 168, 169, 170, 338, 339] + [rng.randint(61, 700) for _ in range(3)]
+    for N in list(range(-1, 27)) + (big if not thorough else list(range(27, 80)) + big + [100, 150, 250, 400, 985, 986]):
         for opb in both:
             if opb and N > 30:
                 continue
